@@ -24,7 +24,7 @@
 (* and the predicted observable state; TLC prints each complete history    *)
 (* and the Go harness replays it on the real lake (lake/api.Interface).    *)
 (***************************************************************************)
-EXTENDS Integers, Sequences, SequencesExt, FiniteSets, FiniteSetsExt, TLC, Json
+EXTENDS Integers, Sequences, SequencesExt, FiniteSets, FiniteSetsExt, Bags, TLC, Json
 
 CONSTANTS MaxOps,       \* length of the generated histories
           KeyOf,        \* <<k1,...,kN>>: key of value id i
@@ -48,7 +48,8 @@ VARIABLES tip,      \* [BranchNames -> commit id | 0 (empty) | -1 (no such branc
           commits,  \* sequence of [parent, adds, dels, addv, delv]; id = index
           objs,     \* sequence of objects (each a sequence of value ids); id = index
           present,  \* object ids whose data files exist
-          live,     \* [BranchNames -> set of value ids]   (the simple model)
+          live,     \* [BranchNames -> bag of value ids]   (the simple model; a bag because an
+                    \* object-level revert can legitimately restore a second copy of a value)
           loaded,   \* batches already loaded
           hist      \* history of operations with predictions
 vars == <<tip, commits, objs, present, live, loaded, hist>>
@@ -78,6 +79,9 @@ Fold(c) ==
        ELSE [ok |-> TRUE, o |-> (p.o \ cm.dels) \cup cm.adds, v |-> (p.v \ cm.delv) \cup cm.addv]
 
 Data(c) == ValsOf(Fold(c).o)
+\* the values a scan of a set of objects returns, with multiplicity
+BagOfObjs(O) == FoldSet(LAMBDA o, acc : acc (+) SetToBag(Vals(o)), EmptyBag, O)
+DataBag(c) == BagOfObjs(Fold(c).o)
 \* a commit can be read iff its log replays and all its objects' files exist
 Readable(c) == Fold(c).ok /\ Fold(c).o \subseteq present
 
@@ -164,13 +168,13 @@ Load(b, i) ==
   /\ LET S == ToSet(Batches[i])  newobjs == WriterObjs(S) IN
      Commit([op |-> "load", b |-> b, batch |-> i], b,
             NewIds(Len(newobjs)), {}, {}, {}, newobjs,
-            [live EXCEPT ![b] = @ \cup S], loaded \cup {i})
+            [live EXCEPT ![b] = @ (+) SetToBag(S)], loaded \cup {i})
 
 Delete(b, o) ==
   /\ Allowed("delete") /\ Exists(b) /\ o \in 1..Len(objs)
   /\ LET rec == [op |-> "delete", b |-> b, obj |-> o] IN
      IF o \in Fold(tip[b]).o
-     THEN Commit(rec, b, {}, {o}, {}, {}, <<>>, [live EXCEPT ![b] = @ \ Vals(o)], loaded)
+     THEN Commit(rec, b, {}, {o}, {}, {}, <<>>, [live EXCEPT ![b] = @ (-) SetToBag(Vals(o))], loaded)
      ELSE Fail(rec)
 
 Matches(p, v) == KeyOf[v] \in PredKeys[p]
@@ -184,7 +188,7 @@ DeleteWhere(b, p) ==
          newobjs == WriterObjs(rest) IN
      IF hit = {} THEN Fail(rec)                                         \* empty transaction
      ELSE Commit(rec, b, NewIds(Len(newobjs)), hit, {}, {}, newobjs,
-                 [live EXCEPT ![b] = {v \in @ : ~Matches(p, v)}], loaded)
+                 [live EXCEPT ![b] = LET old == @ IN [v \in {x \in DOMAIN old : ~Matches(p, x)} |-> old[v]]], loaded)
 
 \* exec.Compact: objects S (>= 2) of the tip are merge-scanned into new objects.
 Compact(b, S, vec) ==
@@ -229,13 +233,15 @@ Merge(child, parent) ==
          pAdds == P \ B   pDels == B \ P                 \* parent patch
          adds == cAdds \ pAdds                           \* child objects not in the parent
          dels == cDels
-         baseVals == ValsOf(B) IN
+         baseBag == BagOfObjs(B) IN
      IF base = 0 THEN Fail(rec)                          \* cannot locate common ancestor
      ELSE IF dels \cap pDels # {} THEN Fail(rec)         \* delete conflict
      ELSE IF adds = {} /\ dels = {} THEN Fail(rec)       \* difference is empty
      ELSE Commit(rec @@ [base |-> base], parent, adds, dels, {}, {}, <<>>,
                  \* the property: parent' = parent + (child added since base) - (child deleted since base)
-                 [live EXCEPT ![parent] = (@ \cup (live[child] \ baseVals)) \ (baseVals \ live[child])],
+                 \* (bags: what the child added and the parent has not itself added since the base is added once --
+                 \*  for duplicate-free data this is parent \cup (child \ base) \ (base \ child))
+                 [live EXCEPT ![parent] = (@ (+) ((live[child] (-) baseBag) (-) (@ (-) baseBag))) (-) (baseBag (-) live[child])],
                  loaded)
 
 \* Branch.Revert / Patch.Revert of commit c on branch b
@@ -249,7 +255,7 @@ Revert(b, c) ==
      IN
      IF dels = {} /\ adds = {} THEN Fail(rec)                           \* revert commit is empty
      ELSE Commit(rec, b, adds, dels, {}, {}, <<>>,
-                 [live EXCEPT ![b] = (@ \ ValsOf(dels)) \cup ValsOf(adds)], loaded)
+                 [live EXCEPT ![b] = (@ (-) BagOfObjs(dels)) (+) BagOfObjs(adds)], loaded)
 
 \* Pool.Vacuum(tip of b): objects added on the path (leaf excluded) and absent from the tip
 Vacuum(b) ==
@@ -263,7 +269,7 @@ Vacuum(b) ==
 Init ==
   /\ tip = [b \in BranchNames |-> IF b = "main" THEN 0 ELSE -1]
   /\ commits = <<>> /\ objs = <<>> /\ present = {}
-  /\ live = [b \in BranchNames |-> {}]
+  /\ live = [b \in BranchNames |-> EmptyBag]
   /\ loaded = {} /\ hist = <<>>
 
 Next ==
@@ -290,7 +296,7 @@ TypeOK == /\ \A b \in BranchNames : tip[b] \in -1..Len(commits)
 Replayable == \A b \in Branches : Fold(tip[b]).ok
 
 \* C14/C15: branch contents equal the simple model.
-ContentsEqualLive == \A b \in Branches : Fold(tip[b]).ok => Data(tip[b]) = live[b]
+ContentsEqualLive == \A b \in Branches : Fold(tip[b]).ok => DataBag(tip[b]) = live[b]
 
 \* C14: no value is ever in two live objects, objects are key-sorted.
 \* (Not an invariant once revert is allowed: reverting a delete whose object was
